@@ -1,1 +1,3 @@
+pub mod forge;
 pub mod offer;
+pub mod pair;
